@@ -475,7 +475,13 @@ pub struct EvalState<'a> {
     // Used to check for circular variable references
     // Vec - likely to be few vars, and need stack behaviour
     checked_vars: Vec<String>,
+    // Current nesting depth (parentheses, unary minus, function arguments)
+    depth: usize,
 }
+
+/// Maximum nesting depth of an expression; the parser is recursive, so this
+/// bounds stack use for input such as "((((((...".
+const MAX_EXPR_DEPTH: usize = 64;
 
 impl<'a> EvalState<'a> {
     fn new(
@@ -488,6 +494,7 @@ impl<'a> EvalState<'a> {
             index: 0,
             context,
             checked_vars: Vec::from(checked_vars),
+            depth: 0,
         }
     }
 
@@ -742,6 +749,18 @@ fn factor(eval_state: &mut EvalState) -> Result<ExprValue> {
 }
 
 fn primary(eval_state: &mut EvalState) -> Result<ExprValue> {
+    eval_state.depth += 1;
+    if eval_state.depth > MAX_EXPR_DEPTH {
+        return Err(SvgdxError::ParseError(format!(
+            "Expression nested more than {MAX_EXPR_DEPTH} levels deep"
+        )));
+    }
+    let result = primary_inner(eval_state);
+    eval_state.depth -= 1;
+    result
+}
+
+fn primary_inner(eval_state: &mut EvalState) -> Result<ExprValue> {
     match eval_state.next() {
         Some(Token::Number(x)) => Ok(ExprValue::Number(x)),
         Some(Token::String(s)) => Ok(ExprValue::String(s)),
